@@ -40,6 +40,9 @@ def cases(tier, seed):
                       p_file=0.1)
         elif cls == 3:  # infiltration-excess runoff on low-conductivity soil
             kw.update(low_ksat=True, p_custom=0.8, regimes=["monsoon", "humid"], p_file=0.0)
+        elif cls == 4 and i % 10 == 4:  # water backing up to the surface: shallow table, uneven compartments, storms
+            kw.update(p_gw=1.0, gw_depths=(0.3, 0.5, 0.8), p_custom=0.5, p_dz=1.0, soil_names=["ac_TunisLocal", "Clay", "Loam", "SiltClay"],
+                      regimes=["monsoon", "humid"], p_file=0.0, p_bunds=0.0, off_season=True)
         sp = gen.config(rng, **kw)
         out.append({"spec": sp})
     return out
@@ -52,6 +55,7 @@ def monitor(spec, res, acc):
     method = base.S.irr_method(spec)
     eff = float((spec.get("irr") or {}).get("kw", {}).get("AppEff", 100.0))
     E = 1e-9
+    prev = None
     for s in tr.steps:
         t = s["t"]
         f = s["flux"]
@@ -68,13 +72,21 @@ def monitor(spec, res, acc):
             acc.add("partition", f"step {t} ({day}): rain {P!r} + applied irrigation {A!r} != "
                     f"infiltration {infl!r} + runoff {ro!r}",
                     dict(t=t, P=P, A=A, Infl=infl, Runoff=ro, pond0=pond0))
-        if ro < 0:
+        if ro < -E:
             acc.add("runoff-negative", f"step {t}: runoff {ro!r}", dict(t=t, Runoff=ro))
         if ro > P + A + pond0 + E:
             acc.add("runoff-too-large", f"step {t}: runoff {ro!r} exceeds rain+irrigation+pond "
                     f"{P + A + pond0!r}", dict(t=t, Runoff=ro, P=P, A=A, pond0=pond0))
-        if infl < 0:
+        if infl < -E:      # -9e-16 is rounding of (incoming - runoff) when everything runs off
             cov["d_neg_infl"] += 1
+            # released water is legitimate only on the first day the capacity fell below the pond
+            stale = (prev is not None and prev["t"] == t - 1
+                     and pond0 > base.pond_capacity(base.mgmt_in_force(tr, prev)) + E)
+            if stale:
+                acc.add("negative-infiltration-late",
+                        f"step {t}: infiltration {infl!r} releases {pond0!r} mm of ponded water, but that water already "
+                        f"exceeded the ponding capacity in force on the previous day (it should have been released then)",
+                        dict(t=t, Infl=infl, pond0=pond0, cap=cap))
             if not pond0 > cap:
                 acc.add("negative-infiltration",
                         f"step {t}: infiltration {infl!r} although ponding {pond0!r} does not exceed "
@@ -105,6 +117,7 @@ def monitor(spec, res, acc):
             cov["d_overtop"] += 1   # with bunds in force runoff can only come from overtopping
         if A > 0:
             cov["d_irrigated"] += 1
+        prev = s
     return len(tr.steps) >= 30 and cov.get("d_runoff", 0) >= 1
 
 
